@@ -1,3 +1,4 @@
+import PnVerif.Model.Redef
 /-
   C16 — executable model of the filling code of src/drivers/ncmpio/ncmpio_fill.c:
   the per-process share arithmetic, the segment list ("plan") that `fillerup_aggregate` turns into
@@ -12,6 +13,7 @@
   overflow, MPI errors) are not modelled: under them the C skips segments.
 -/
 namespace PnVerif.Fill
+open PnVerif.Redef (File rd writeAt)
 
 /-- `count = len / nprocs; start = count * rank;
      if (rank < len % nprocs) { start += rank; count++; } else start += len % nprocs;`
@@ -99,6 +101,32 @@ def planBuf (nprocs rank nrecs : Nat) (elem : FVar → List UInt8) (vars : List 
   (passVars false vars).flatMap (fun v => fillBuf (elem v) (share v.varLen nprocs rank).2) ++
   (List.range nrecs).flatMap fun _ =>
     (passVars true vars).flatMap fun v => fillBuf (elem v) (share v.varLen nprocs rank).2
+
+/-! ### the effect of the collective write on the file -/
+
+/-- a segment of the plan together with the bytes the process writes there -/
+def segD (nprocs rank : Nat) (elem : FVar → List UInt8) (v : FVar) (base : Nat) : Seg × List UInt8 :=
+  (segOf nprocs rank v base, fillBuf (elem v) (share v.varLen nprocs rank).2)
+
+def fixedSegsD (nprocs rank : Nat) (elem : FVar → List UInt8) (vars : List FVar) : List (Seg × List UInt8) :=
+  vars.filterMap fun v => if v.noFill || v.isRec then none else some (segD nprocs rank elem v v.begin)
+
+def recSegsD (nprocs rank recsize recno : Nat) (elem : FVar → List UInt8) (vars : List FVar) : List (Seg × List UInt8) :=
+  vars.filterMap fun v =>
+    if v.noFill || !v.isRec then none else some (segD nprocs rank elem v (v.begin + recsize * recno))
+
+/-- the plan of one process with its data -/
+def fillPlanD (nprocs rank recsize nrecs : Nat) (elem : FVar → List UInt8) (vars : List FVar) : List (Seg × List UInt8) :=
+  fixedSegsD nprocs rank elem vars ++
+    (List.range nrecs).flatMap fun recno => recSegsD nprocs rank recsize recno elem vars
+
+/-- a write through the hindexed view = one contiguous write per block -/
+def writeSegs (f : File) (ws : List (Seg × List UInt8)) : File :=
+  ws.foldl (fun g w => writeAt g w.1.off w.2) f
+
+/-- the collective write of `fillerup_aggregate` by all processes (taken in rank order) -/
+def fillAll (nprocs recsize nrecs : Nat) (elem : FVar → List UInt8) (vars : List FVar) (f : File) : File :=
+  writeSegs f ((List.range nprocs).flatMap fun r => fillPlanD nprocs r recsize nrecs elem vars)
 
 /-- big-endian unsigned value of a byte string -/
 def beVal (bs : List UInt8) : Nat := bs.foldl (fun a b => a * 256 + b.toNat) 0
